@@ -114,15 +114,21 @@ def witness_population(date):
     import pandas as pd
     from _gettsim.synthetic import create_synthetic_data
     a = create_synthetic_data(n_adults=2, n_children=2, policy_year=date.year,
-                              specs_heterogeneous={"bruttolohn_m": [[2100.0, 450.0, 0.0, 0.0]]}).reset_index(drop=True)
+                              specs_heterogeneous={"bruttolohn_m": [[2100.37, 450.55, 0.0, 0.0]]}).reset_index(drop=True)
     b = create_synthetic_data(n_adults=2, n_children=0, policy_year=date.year,
-                              specs_heterogeneous={"bruttolohn_m": [[1500.0, 0.0]]}).reset_index(drop=True)
+                              specs_heterogeneous={"bruttolohn_m": [[1500.1, 0.0]]}).reset_index(drop=True)
     off = int(a["p_id"].max()) + 1
     for c in b.columns:
         if c == "p_id" or c.startswith("p_id_"):
             b[c] = [v + off if v >= 0 else v for v in b[c]]
     b["hh_id"] = [int(a["hh_id"].max()) + 1, int(a["hh_id"].max()) + 2]
-    return pd.concat([a, b], ignore_index=True)
+    out = pd.concat([a, b], ignore_index=True)
+    # further flow inputs with cents (their other time units are computed columns that can be supplied)
+    for c, vals in (("eink_selbst_m", [109.6, 0.0, 0.0, 0.0, 184.95, 0.0]), ("eink_vermietung_m", [0.0, 110.97, 0.0, 0.0, 0.0, 127.41]),
+                    ("kapitaleink_brutto_m", [112.34, 0.0, 0.0, 0.0, 0.0, 186.32])):   # x * 12 / 12 != x in binary floating point
+        if c in out.columns and len(out) == len(vals):
+            out[c] = vals
+    return out
 
 
 def _roundtrip(args):
@@ -194,7 +200,10 @@ def witness_roundtrips(ck, tier, rnd):
     nodes = sorted(n for n in d0.graph.nodes if n in d0.funcs)
     rnd.shuffle(nodes)
     ids = [f"{g}_id" for g in gt.GROUPS if f"{g}_id" in d0.graph.nodes]
-    pick = ["geburtsdatum", "alter_monate"] + ids + (nodes[:10] if tier == "quick" else nodes)
+    # the other time units of the supplied flow columns (amounts with cents: x*12/12 is then not x in floating point)
+    cols = list(witness_population(date).columns)
+    conv = sorted({c[:-1] + u for c in cols if c[-2:] in ("_y", "_m", "_w", "_d") for u in "ymwd" if c[:-1] + u not in cols and c[:-1] + u in d0.graph.nodes})
+    pick = ["geburtsdatum", "alter_monate"] + ids + conv[: (4 if tier == "quick" else None)] + (nodes[:10] if tier == "quick" else nodes)
     pick = list(dict.fromkeys(n for n in pick if n in d0.graph.nodes))
     with multiprocessing.get_context("fork").Pool(common.JOBS) as pool:
         res = pool.map(_roundtrip, [(date, n) for n in pick], chunksize=1)
